@@ -192,9 +192,9 @@ structure GoodInv (cfg : Cfg) (fs : FS) (I : Cache → Prop) : Prop where
   get : ∀ c n, I c → (getTemplate cfg fs c n).1 = (getSource cfg fs n).toExcept ∧ I (getTemplate cfg fs c n).2
 
 theorem renderNodes_generic (cfg : Cfg) (I : Cache → Prop)
-    (sub : Name → Ctx → Cache → Outcome × Cache) (subRef : Name → Ctx → Ctx → Outcome)
-    (hsub : ∀ t base caller c, I c →
-      (sub t (mergeCtx base caller) c).1 = subRef t base caller ∧ I (sub t (mergeCtx base caller) c).2) :
+    (sub : Bool → Name → Ctx → Cache → Outcome × Cache) (subRef : Bool → Name → Ctx → Ctx → Outcome)
+    (hsub : ∀ o t base caller c, I c →
+      (sub o t (mergeCtx base caller) c).1 = subRef o t base caller ∧ I (sub o t (mergeCtx base caller) c).2) :
     ∀ (nodes : List Node) (base caller : Ctx) (c : Cache), I c →
       (renderNodes cfg sub (mergeCtx base caller) nodes c).1 = refNodes cfg subRef base caller nodes ∧
       I (renderNodes cfg sub (mergeCtx base caller) nodes c).2 := by
@@ -224,30 +224,37 @@ theorem renderNodes_generic (cfg : Cfg) (I : Cache → Prop)
       | ok s => exact tail s c hc
     | incl t =>
       simp only [renderNodes, refNodes]
-      obtain ⟨e1, e2⟩ := hsub t base caller c hc
+      obtain ⟨e1, e2⟩ := hsub false t base caller c hc
       rw [← e1]
-      cases hr : (sub t (mergeCtx base caller) c).1 with
+      cases hr : (sub false t (mergeCtx base caller) c).1 with
+      | error e => exact ⟨rfl, e2⟩
+      | ok s => exact tail s _ e2
+    | inclOpt t =>
+      simp only [renderNodes, refNodes]
+      obtain ⟨e1, e2⟩ := hsub true t base caller c hc
+      rw [← e1]
+      cases hr : (sub true t (mergeCtx base caller) c).1 with
       | error e => exact ⟨rfl, e2⟩
       | ok s => exact tail s _ e2
     | imp t =>
       simp only [renderNodes, refNodes]
-      obtain ⟨e1, e2⟩ := hsub t [] [] c hc
+      obtain ⟨e1, e2⟩ := hsub false t [] [] c hc
       have hm : mergeCtx [] [] = [] := rfl
       rw [hm] at e1 e2
       rw [← e1]
-      cases hr : (sub t [] c).1 with
+      cases hr : (sub false t [] c).1 with
       | error e => exact ⟨rfl, e2⟩
       | ok s => exact tail s _ e2
 
 theorem renderTemplate_generic (cfg : Cfg) (fs : FS) (I : Cache → Prop) (hI : GoodInv cfg fs I) :
-    ∀ (fuel : Nat) (name : Name) (base caller : Ctx) (c : Cache), I c →
-      (renderTemplate cfg fs fuel name (mergeCtx base caller) c).1 = renderRef cfg fs fuel name base caller ∧
-      I (renderTemplate cfg fs fuel name (mergeCtx base caller) c).2 := by
+    ∀ (fuel : Nat) (opt : Bool) (name : Name) (base caller : Ctx) (c : Cache), I c →
+      (renderTemplate cfg fs fuel opt name (mergeCtx base caller) c).1 = renderRef cfg fs fuel opt name base caller ∧
+      I (renderTemplate cfg fs fuel opt name (mergeCtx base caller) c).2 := by
   intro fuel
   induction fuel with
-  | zero => intro name base caller c hc; exact ⟨rfl, hc⟩
+  | zero => intro opt name base caller c hc; exact ⟨rfl, hc⟩
   | succ fuel ih =>
-    intro name base caller c hc
+    intro opt name base caller c hc
     obtain ⟨g1, g2⟩ := hI.get c name hc
     simp only [renderTemplate, renderRef]
     rw [← g1]
@@ -258,7 +265,7 @@ theorem renderTemplate_generic (cfg : Cfg) (fs : FS) (I : Cache → Prop) (hI : 
     | ok t =>
       simp only
       exact renderNodes_generic cfg I _ _
-        (fun t' b cl c'' h'' => ih (joinPath cfg.relative t' name) b cl c'' h'') t base caller c' g2
+        (fun o t' b cl c'' h'' => ih o (joinPath cfg.relative t' name) b cl c'' h'') t base caller c' g2
 
 theorem goodInv_coh (cfg : Cfg) (fs : FS) : GoodInv cfg fs (Coh cfg fs) :=
   ⟨fun c n h => getTemplate_coh cfg fs c n h⟩
